@@ -79,8 +79,6 @@ Definition uint_from_le_hex (n : nat) (cs : list Z) : hexres :=
     let '(bs, err) := decode_hex_pairs cs 0 in
     if err =? 0 then HexOk (map word_from_le_bytes (chunks 8 n bs)) else HexInvalid
   else HexLen.
-(* BoxedUint::from_be_hex: nlimbs = bits_precision / Limb::BITS (rounded DOWN) *)
-Definition boxed_from_be_hex (p : Z) (cs : list Z) : hexres := uint_from_be_hex (Z.to_nat (p / 64)) cs.
 
 (** * Formatting: src/uint.rs:296-349, src/limb.rs, src/uint/boxed.rs *)
 Definition hexchar (upper : bool) (d : Z) : Z :=
@@ -140,8 +138,9 @@ Definition sext_word (k v : Z) : Z := (if v <? 2 ^ (k - 1) then v else v - 2 ^ k
 (* from_i8 / i16 / i32 / i64 : assert LIMBS >= 1 ; Uint::new([Limb(n as Word)]).as_int().resize() *)
 Definition int_from_small (k : Z) (n : nat) (v : Z) : option (list Z) :=
   match n with O => None | S _ => Some (int_resize [sext_word k v] n) end.
-(* from_i128 : Uint::<2>::from_u128(n as u128).as_int().resize()  -- no assertion on LIMBS *)
-Definition int_from_i128 (n : nat) (v : Z) : list Z := int_resize [Z.land v MAXW; v / B] n.
+(* from_i128 : assert LIMBS >= 2 ; Uint::<2>::from_u128(n as u128).as_int().resize() *)
+Definition int_from_i128 (n : nat) (v : Z) : option (list Z) :=
+  if Nat.ltb n 2 then None else Some (int_resize [Z.land v MAXW; v / B] n).
 
 (** * concat / split: src/uint/concat.rs, src/uint/split.rs *)
 Definition uint_concat_mixed (lo hi : list Z) (o : nat) : list Z :=
@@ -157,6 +156,9 @@ Definition uint_split_mixed (a : list Z) (l h : nat) : list Z * list Z :=
 (* u32::div_ceil(Limb::BITS) *)
 Definition limbs_for_precision (p : Z) : nat :=
   Z.to_nat (let d := p / 64 in if 0 <? p mod 64 then d + 1 else d).
+(* BoxedUint::from_be_hex: nlimbs = bits_precision.div_ceil(Limb::BITS); the limbs go into the value as
+   they are (no From<Vec<Limb>> fix-up: precision 0 gives a value without limbs) *)
+Definition boxed_from_be_hex (p : Z) (cs : list Z) : hexres := uint_from_be_hex (limbs_for_precision p) cs.
 (* From<Vec<Limb>>: an empty vector becomes one zero limb *)
 Definition vec_into_boxed (ls : list Z) : list Z := match ls with [] => [0] | _ => ls end.
 Definition zero_with_precision (p : Z) : list Z := vec_into_boxed (zeros (limbs_for_precision p)).
@@ -229,6 +231,11 @@ Definition nonzero_new (o : option (list Z)) : outcome :=
   match o with None => PanicV | Some r => if is_zero_limbs r then NoneV else Val [r] end.
 Definition odd_new (h : hexres) : outcome :=
   match h with HexOk r => if Z.odd (nthz r 0) then Val [r] else PanicV | _ => PanicV end.
+(* NonZero::from_{be,le}_bytes / from_{be,le}_byte_array ; Odd::from_{be,le}_hex *)
+Definition nonzero_from_be (n : nat) (bs : list Z) : outcome := nonzero_new (uint_from_be_slice n bs).
+Definition nonzero_from_le (n : nat) (bs : list Z) : outcome := nonzero_new (uint_from_le_slice n bs).
+Definition odd_from_be_hex (n : nat) (cs : list Z) : outcome := odd_new (uint_from_be_hex n cs).
+Definition odd_from_le_hex (n : nat) (cs : list Z) : outcome := odd_new (uint_from_le_hex n cs).
 
 (* ------------------------------------------------------------------------------------------ *)
 (** * Specification: the positional formulas of the property, on plain integers *)
@@ -276,7 +283,7 @@ Definition m_uint_from_prim (kind : Z) (n : nat) (v : Z) : outcome :=
   else if kind =? 129 then vpanic (uint_from_wide_word n v)
   else vpanic (uint_from_small n v).
 Definition m_int_from_prim (kind : Z) (n : nat) (v : Z) : outcome :=
-  if kind =? 128 then Val [int_from_i128 n v] else vpanic (int_from_small kind n v).
+  if kind =? 128 then vpanic (int_from_i128 n v) else vpanic (int_from_small kind n v).
 Definition m_uint_to_prim (kind : Z) (a : list Z) : outcome :=
   if kind =? 128 then let r := u128_of_limbs a in Val [[r mod B; r / B]] else Val [[nthz a 0]].
 
@@ -315,13 +322,11 @@ Definition ops_conv_model : list (string * opfn) := [
   ("boxed.from_be_hex", fun _ a => hex_boxed (boxed_from_be_hex (sarg 1 a) (arg 0 a)));
   ("uint.serde_ser", fun _ a => Val [uint_serde_ser (arg 0 a)]);
   ("uint.serde_de", fun _ a => uint_serde_de (cv_nat 1 a) (arg 0 a));
-  ("nonzero.from_be_bytes", fun _ a => nonzero_new (uint_from_be_slice (cv_nat 1 a) (arg 0 a)));
-  ("nonzero.from_le_bytes", fun _ a => nonzero_new (uint_from_le_slice (cv_nat 1 a) (arg 0 a)));
-  (* src/non_zero.rs:193 : from_le_byte_array calls T::from_be_byte_array *)
-  ("nonzero.from_le_byte_array", fun _ a => nonzero_new (uint_from_be_slice (cv_nat 1 a) (arg 0 a)));
-  ("odd.from_be_hex", fun _ a => odd_new (uint_from_be_hex (cv_nat 1 a) (arg 0 a)));
-  (* src/odd.rs:73 : from_le_hex calls Uint::from_be_hex *)
-  ("odd.from_le_hex", fun _ a => odd_new (uint_from_be_hex (cv_nat 1 a) (arg 0 a)))
+  ("nonzero.from_be_bytes", fun _ a => nonzero_from_be (cv_nat 1 a) (arg 0 a));
+  ("nonzero.from_le_bytes", fun _ a => nonzero_from_le (cv_nat 1 a) (arg 0 a));
+  ("nonzero.from_le_byte_array", fun _ a => nonzero_from_le (cv_nat 1 a) (arg 0 a));
+  ("odd.from_be_hex", fun _ a => odd_from_be_hex (cv_nat 1 a) (arg 0 a));
+  ("odd.from_le_hex", fun _ a => odd_from_le_hex (cv_nat 1 a) (arg 0 a))
 ].
 
 (* ---- spec table ---- *)
@@ -397,16 +402,13 @@ Definition ops_conv_spec : list (string * opfn) := [
      let kind := sarg 1 a in
      if kind =? 128 then (if Nat.eqb (cv_ln 0 a) 2 then Val [to_limbs 2 (cv_ev 0 a)] else Unsupported)
      else (if Nat.eqb (cv_ln 0 a) 1 then Val [to_limbs 1 (cv_ev 0 a)] else Unsupported));
-  (* from_i8 .. from_i128: the signed value in two's complement at the target width. A 128-bit value
-     that does not fit a one-limb Int must not be truncated silently (Uint::from_u128 asserts; the
-     From<i128> impl debug-asserts): spec = panic; if it fits the behaviour is left open *)
+  (* from_i8 .. from_i128: the signed value in two's complement at the target width; a width that cannot
+     hold the type (no limbs; one limb for i128) is rejected by an assertion, like Uint::from_u128 *)
   ("int.from_prim", fun _ a =>
      let kind := sarg 1 a in let n := cv_nat 2 a in let v := prim_val (arg 0 a) in
      if negb (sp_prim_fits kind v) then Unsupported
      else let s := sp_signed kind v in
-       if Nat.eqb n 0 then PanicV
-       else if (kind =? 128) && Nat.eqb n 1 then
-         (if (- 2 ^ 63 <=? s) && (s <? 2 ^ 63) then Unsupported else PanicV)
+       if Nat.ltb n (if kind =? 128 then 2 else 1) then PanicV
        else Val [to_limbs_s n s]);
   ("boxed.from_prim", fun _ a =>
      let kind := sarg 1 a in let v := prim_val (arg 0 a) in
